@@ -57,7 +57,8 @@ def main():
     meta["ran"].append({"cmd": "patched: cargo test --offline", "out": out.strip(), "suite_passes": suite_ok})
     shutil.copy(os.path.join(cand, "demo.rs"), os.path.join(WT, "tests", "demo.rs"))
     rc, out = sh("cargo test --offline --test demo 2>&1 | tail -15", cwd=WT)
-    demo_fails = "test result: FAILED" in out
+    # a demo that aborts the test process (SIGABRT / SIGSEGV) also counts as failing
+    demo_fails = "test result: FAILED" in out or "signal:" in out or "SIGABRT" in out or "SIGSEGV" in out or "process didn't exit successfully" in out
     meta["ran"].append({"cmd": "patched: cargo test --offline --test demo", "fails": demo_fails, "out": out[-600:]})
     os.remove(os.path.join(WT, "tests", "demo.rs"))
     try:
